@@ -399,7 +399,12 @@ def main(chk):
         n_c, n_a = sum(1 for c in calls if c["routine"] == pair[0]), sum(1 for c in calls if c["routine"] == pair[1])
         if n_c >= 2 * case["pd"]:
             chk.count("delayed_actor_runs_checked")
-            if n_a == 0:
+            aname = "actor" if case["routine"] == "td7" else "policy"
+            snaps_ = res_["snaps"]
+            moved = bool(snaps_) and aname in snaps_[0] and any(a.tobytes() != b.tobytes() for a, b in zip(snaps_[0][aname], snaps_[-1][aname]))
+            if n_a == 0 and moved:       # the actor is trained, but not through the routine of the table: the interception is blind, nothing is shown
+                chk.disagree("routine-table", {"routine": pair[1], "what": "never called in a run in which the actor changed", "case": case})
+            elif n_a == 0:
                 chk.fail(f"C05:train_{case['routine']}:actor-never-updated", f"{pair[0]} was called {n_c} times in one training run with policy_delay={case['pd']}, "
                          f"but {pair[1]} never: the actor, a component the training step is documented to train, is never changed",
                          {"case": case, "critic_update_calls": n_c, "actor_update_calls": n_a})
